@@ -45,7 +45,7 @@ func normalisePkg(last string) string {
 // C15: each converter lands in the configured file and package; nothing else is written.
 func C15(e *core.Env) int {
 	rep := core.NewReport(e, "exploration")
-	rep.Rule = "scenarios of 1-3 input packages (nested directories) with 1-4 converters (interfaces and variables blocks) whose output:file is default/relative/parent/absolute/@cwd/same-package and whose output:package is absent/PATH/PATH:NAME/:NAME, with and without a pre-existing package at the target directory, some sharing one file (agreeing or disagreeing on the package), invoked from the module root, from a sub-directory and through -cwd from outside; every run is the real CLI under strace: the set of created/modified paths must equal the layout model's set, each file must carry the model's package clause, files are opened with mode 0644 and directories created with 0755 (syscall arguments), shared files parse and the module builds; disagreeing converters must fail with exit 1 and write nothing; non-trivial = successful run whose written set was compared; distinct = (forms, invocation, existing-package) tuple"
+	rep.Rule = "scenarios of 1-3 input packages (nested directories) with 1-4 converters (interfaces and variables blocks) whose output:file is default/relative/parent/absolute/@cwd/same-package and whose output:package is absent/PATH/PATH:NAME/:NAME, with and without a pre-existing package at the target directory, some sharing one file (agreeing or disagreeing on the package), invoked from the module root, from a sub-directory, through an absolute -cwd from outside and through a relative -cwd (`-cwd ..`) from a sub-directory; every run is the real CLI under strace: the set of created/modified paths must equal the layout model's set, each file must carry the model's package clause, files are opened with mode 0644 and directories created with 0755 (syscall arguments), shared files parse and the module builds; disagreeing converters must fail with exit 1 and write nothing; non-trivial = successful run whose written set was compared; distinct = (forms, invocation, existing-package) tuple"
 	rep.Assumptions = []string{"layout model (checks/c15.go) written from docs/reference/output.md", "strace syscall arguments show the requested mode before umask", "output:package PATH is kept consistent with the file location (inconsistent PATH is not judged)"}
 	rep.Floor = tierN(e, 15, 200)
 	bin, err := e.BuildCLI("plain")
@@ -73,6 +73,9 @@ func C15(e *core.Env) int {
 	var scens []scen
 	for i := 0; i < n; i++ {
 		s := scen{name: fmt.Sprintf("l%04d", i), invoke: []string{"root", "sub", "cwdflag"}[i%3]}
+		if s.invoke == "cwdflag" && (i/3)%2 == 1 {
+			s.invoke = "cwdrel"
+		}
 		nconv := 1 + r.Intn(4)
 		for k := 0; k < nconv; k++ {
 			c := &c15Conv{pkgDir: pkgDirs[r.Intn(len(pkgDirs))], name: fmt.Sprintf("C%c", 'A'+k), vars: r.Intn(5) == 0,
@@ -166,6 +169,10 @@ func C15(e *core.Env) int {
 		case "sub":
 			procdir, workdir = filepath.Join(dir, "a"), filepath.Join(dir, "a")
 			args = []string{"gen", "./...", "../b/...", "../My-Pkg_2/..."}
+		case "cwdrel":
+			// a RELATIVE -cwd, given from a sub-directory: @cwd/ and the patterns refer to the directory it names
+			procdir, workdir = filepath.Join(dir, "a"), dir
+			args = []string{"gen", "-cwd", "..", "./..."}
 		default:
 			procdir, workdir = outside, dir
 			args = []string{"gen", "-cwd", dir, "./..."}
